@@ -27,6 +27,21 @@ def c15_classify(inp, out):
     return ks
 
 
+def c14_classify(inp, out):
+    cfg, ops = inp.split("|", 1)
+    f = cfg.split(",")
+    ks = ["profile:" + f[0], "kt:" + f[1], "chain:" + f[2], "nrec:" + f[3], "auth:" + f[4]]
+    for op, o in zip(ops.split(";"), out.split("|")):
+        ks.append("op:" + op.split(" ")[0])
+        if op == "send":
+            for w in o.split(" "):
+                if w.startswith("final:"):
+                    ks.append("final:" + w[6:].split(",")[0].rstrip("0123456789"))
+        elif op.startswith("fwd") or op.startswith("pick"):
+            ks.append("out:" + o.split(":")[0])
+    return ks
+
+
 def c19_classify(inp, out):
     ks = []
     for op, o in zip(inp.split(";"), out.split("|")):
@@ -156,6 +171,25 @@ PROPS = {
                          "encoding/json of the inbox document (modelled as the list + count it carries)"],
         "assumptions": ["handlers are driven synchronously through the verif hook (goroutine dispatch of HandleInbound is C13/C03)",
                         "single fault per operation, as the property quantifies"],
+    },
+    "C14": {
+        "lean_files": ["AriesVerif/C14/Model.lean", "AriesVerif/C14/Props.lean", "AriesVerif/C14/Drv.lean"],
+        "lake_targets": ["AriesVerif"],
+        "classify": c14_classify,
+        "nontrivial": lambda inp, out: "final:got=c" in out or "final:got=inbox" in out,
+        "shrink": {"field_sep": "|", "op_sep": ";", "fields": [1]},
+        "thorough_seeds": 2,
+        "case_timeout": 120,
+        "rule": "seeded scenarios: media-type profile (IndyAgent, aip1, aip2;rfc19, aip2;rfc587, didcomm/v2) x key type x chain of "
+                "0..6 mediators x 1-2 recipient keys x auth/anon, each with a history of keylist add/remove from three clients, "
+                "endpoints going down and up, sends through the whole chain, forwards for registered / foreign / unregistered "
+                "keys and pickups; non-trivial = a routed message reached a client or an inbox; distinct (input, outcome) pairs",
+        "trusted_base": ["recording bus standing in for the transports; SendToDID half of the mediators' outbound recorded, not packed",
+                         "symbolic encryption in the model (who holds a key in `rcpts` can open): the cryptographic half is C01/C02",
+                         "plaintext-marker scan for the leak column (marker and its base64 form)"],
+        "assumptions": ["forward and keylist-update handlers are driven synchronously through the verif hook",
+                        "every agent has its own KMS, packager and dispatcher; mediators M2..Mn have honest registrations",
+                        "the route table is last-writer-wins (no ownership check, remove unimplemented): modelled as the code does it"],
     },
     "C19": {
         "lean_files": ["AriesVerif/C19/Spec.lean", "AriesVerif/C19/Model.lean", "AriesVerif/C19/Props.lean",
